@@ -8,6 +8,7 @@
 EXTENDS Trace_Vector
 VARIABLE tc
 tvars == <<vars, tc>>
+tvars_nol == <<vvars, tc>>
 NoTc == [st |-> "none"]
 MontR == "0x7fffffffffffdf0ffffffffffffffffffffffffffffffffffffffffffffffe1"
 
